@@ -225,3 +225,24 @@ def simulate(module: str, cfg_text: str, *, num: int, depth: int, seed: int, tim
         return out
     finally:
         shutil.rmtree(tmp, ignore_errors=True)
+
+
+def apalache(module: str, *, init: str, inv: str, length: int, timeout: int = 1200) -> tuple[bool, str]:
+    """apalache-mc check --init --inv --length on /verif/spec/<module>.tla -> (no error found, tail of output).
+    Used for inductive-invariant obligations (unbounded in the length of the history)."""
+    tmp = Path(tempfile.mkdtemp(prefix="vf_apa_"))
+    try:
+        cmd = ["apalache-mc", "check", f"--init={init}", f"--inv={inv}", f"--length={length}", f"--out-dir={tmp}/out", f"--run-dir={tmp}/run", str(SPEC_DIR / f"{module}.tla")]
+        env = dict(os.environ, TMPDIR=str(tmp))
+        try:
+            proc = subprocess.run(cmd, cwd=tmp, capture_output=True, text=True, timeout=timeout, env=env)
+        except subprocess.TimeoutExpired as e:
+            raise TLCFailure(f"apalache timed out on {module} ({init} => {inv})") from e
+        out = proc.stdout + proc.stderr
+        if "The outcome is: NoError" in out:
+            return True, out[-400:]
+        if "The outcome is: Error" in out:
+            return False, out[-1500:]
+        raise TLCFailure(f"apalache failed on {module}: {out[-2000:]}")
+    finally:
+        shutil.rmtree(tmp, ignore_errors=True)
